@@ -535,7 +535,7 @@ def suite_conc(pid, tier, seed):
     # model-free exploration of the same programs on the real library: schedules the (correct) model
     # would never choose, e.g. a thread entering a critical section the model considers locked
     rounds = 12 if tier == "quick" else 60
-    free_cases = gen.conc_corpus() * 3 + [c for c in cases[len(gen.conc_corpus())::nsched]]
+    free_cases = gen.conc_corpus() * 3 + gen.conc_fault_corpus() * 2 + [c for c in cases[len(gen.conc_corpus())::nsched]]
     free_cases = [c.replace("\n", f"_f{i}\n", 1) for i, c in enumerate(free_cases)]
     def go_free():
         d = run.scratch_dir()
